@@ -76,8 +76,8 @@ from click.testing import CliRunner  # noqa: E402
 from space_packet_parser import cli as _cli  # noqa: E402
 
 _SEP = re.compile("[│┃|]")
-_CTR = re.compile(r"SRC_SEQ_CTR\W{1,4}(\d+)")          # 'SRC_SEQ_CTR': 5   "SRC_SEQ_CTR": 5   SRC_SEQ_CTR = 5   SRC_SEQ_CTR | 5
-_APID = re.compile(r"PKT_APID\W{1,4}(\d+)")
+_CTR = re.compile(r"SRC_SEQ_CTR[^\w\n]{1,60}?(\d+)")   # 'SRC_SEQ_CTR': 5   "SRC_SEQ_CTR": 5   SRC_SEQ_CTR = 5   | SRC_SEQ_CTR |    5 |
+_APID = re.compile(r"PKT_APID[^\w\n]{1,60}?(\d+)")
 _OOR = re.compile(r"out[ -]of[ -](range|bounds)|invalid (packet )?index|no such packet", re.I)
 
 
@@ -95,24 +95,25 @@ _ANSI = re.compile(r"\x1b\[[0-9;?]*[A-Za-z]")
 
 
 _BOX = re.compile("[\u2500-\u257f|]")        # box-drawing characters and the ASCII bar
+_LOGLINE = re.compile(r"\b(DEBUG|INFO|WARNING|ERROR|CRITICAL)\b")
+_TRACEBACK = re.compile(r"Traceback \(most recent call last\)")
+
+
+_ELLIPSES = ("...", "\u2026", "\u22ee", "\u22ef")
 
 
 def parse_rows(text):
-    """Data rows of the listing, however the table is drawn (any box style or none): lines whose tokens - after removing
-    ANSI sequences and box-drawing characters - are all integers (>= 7 of them: the seven header fields, in order,
-    possibly among further integer columns such as a row number) or all ellipses."""
+    """Data rows of the listing, however the table is drawn: after removing ANSI sequences and box-drawing characters, a
+    line with >= 7 integer tokens is a data row (its integer tokens, in order; non-integer tokens such as a hex preview or
+    a flag name are ignored), and a line with fewer than 7 integers that contains an ellipsis token is the ellipsis row."""
     rows = []
     for line in _ANSI.sub("", text).splitlines():
         cells = _BOX.sub(" ", line).split()
-        if cells and cells[0] in ("...", "\u2026") and not any(re.fullmatch(r"-?\d+", c) for c in cells[1:2]):
-            rows.append("...")           # the ellipsis row, however many cells it fills ("...", "... (3 more)", seven "...")
-            continue
-        if len(cells) < 7:
-            continue
-        if all(c in ("...", "\u2026") for c in cells):
+        ints = tuple(int(c) for c in cells if re.fullmatch(r"-?\d+", c))
+        if len(ints) >= 7:
+            rows.append(ints)
+        elif any(c in _ELLIPSES or c.strip(".\u2026") == "" and len(c) >= 3 for c in cells) and not _LOGLINE.search(line):
             rows.append("...")
-        elif all(re.fullmatch(r"-?\d+", c) for c in cells):
-            rows.append(tuple(int(c) for c in cells))
     return rows
 
 
@@ -384,6 +385,10 @@ def run(ch, render=False):
         except Exception:
             text_all = text
         oor_case = index is not None and (index >= m or index < -m)
+        if exc is None or isinstance(exc, SystemExit):
+            if _TRACEBACK.search(_ANSI.sub("", text_all)):
+                exc = RuntimeError("a rendered traceback in the command's output")
+                exc.sim_injected = True       # (constructed here only to carry the message; the traceback text is the CLI's)
         if exc is not None and not isinstance(exc, SystemExit):
             out.fail("traceback", f"command ended in {type(exc).__name__}: {exc} ({desc})", f"{cmd}|traceback|{type(exc).__name__}")
         elif result.exit_code != 0 and not oor_case:
@@ -439,9 +444,10 @@ def run(ch, render=False):
                 if ctrs:
                     out.fail("packet_shown_for_bad_index", f"--packet {index} with {m} packets printed counters {ctrs[:12]} "
                                                            f"({desc})", "parse|shown_for_bad_index")
-                elif not text_all.strip():
-                    out.fail("no_out_of_range_message", f"--packet {index} with {m} packets printed nothing at all: an "
-                                                        f"out-of-range message is required ({desc})", "parse|no_message")
+                elif not "".join(l for l in _ANSI.sub("", text_all).splitlines()
+                                 if not re.search(r"\b(DEBUG|INFO)\b", l)).strip():        # informational log records aside
+                    out.fail("no_out_of_range_message", f"--packet {index} with {m} packets printed nothing (log records aside): "
+                                                        f"an out-of-range message is required ({desc})", "parse|no_message")
                 elif not _OOR.search(text_all):
                     w.probe("out_of_range_message_unrecognised_wording")      # some message was printed: wording is not judged
 
